@@ -767,6 +767,17 @@ PLANS["X01"] = dict(
     )],
 )
 
+PLANS["X07"] = dict(
+    level_text="growth: config.LoadConfig / Config.Save over a configuration directory as a state machine (file kinds, links never read, default for a missing file, truncating private Save)",
+    level_note="not a listed property; Save writes through a symbolic link at the path (named deviation of the model, as the code does)", rule="all operation histories of depth 4 (5 in the thorough tier)", exhaustive=True,
+    phases=[dict(
+        name="configfile",
+        gen=dict(module="MC_ConfigFile", cfg=lambda tier, seed: mc_cfg(["Inv_Type", "Inv_Laws", "Inv_Emit"], consts=["Depth = 5" if tier == "thorough" else "Depth = 4"]), select=slicer(8000)),
+        drive=dict(driver="configfile"),
+        validate=dict(module="Trace_ConfigFile", cfg=trace_cfg()),
+    )],
+)
+
 PLANS["X03"] = dict(
     level_text="growth: which trust-policy file a configuration-based verifier is built from (file kinds, symlinks never followed, legacy fallback only for a missing oci file)",
     level_note="not a listed property; unreadable files cannot be produced (the harness runs as root)", rule="8^3 directories x 4 operations (x 3 places of the trusted root for the constructors)", exhaustive=True,
